@@ -320,6 +320,15 @@ func (r *replicator) processHash(ctx context.Context, item processItem) ([]cid.C
 		return nil, fmt.Errorf("unable to fetch entry %s", hash.String())
 	}
 
+	// an entry written for another log must never be handed to Join, which
+	// would merge it as a head without verifying it
+	for _, e := range l.Values().Slice() {
+		if e.GetLogID() != r.store.OpLog().GetID() {
+			r.logger.Warn("ignoring an entry that belongs to another log", zap.String("cid", e.GetHash().String()))
+			return nil, nil
+		}
+	}
+
 	r.muBuffer.Lock()
 	r.buffer = append(r.buffer, l)
 	r.muBuffer.Unlock()
